@@ -10,6 +10,7 @@ import Apimodel.Refs
 import Apimodel.Versions
 import Apimodel.Generics
 import Apimodel.Aggregate
+import Apimodel.RecSeq
 import Apimodel.MetaChain
 import Apimodel.AcceptThm
 import Apimodel.NoCrashThm
@@ -420,6 +421,15 @@ def handle (line : String) : String :=
           let annos ← (← arr (← j.getObjVal? "annos")).toList.mapM pairs
           let key ← str (← j.getObjVal? "key")
           pure (Json.mkObj [("id", id), ("value", match Meta.fullMetadata fm annos key with | some v => Json.str v | Option.none => Json.null)])
+      | "rec" => do
+          let g ← (← arr (← j.getObjVal? "graph")).toList.mapM (fun e => do
+            let a ← arr e; pure ((← nat' a[0]!), (← (← arr a[1]!).toList.mapM nat')))
+          let starts ← (← arr (← j.getObjVal? "starts")).toList.mapM nat'
+          let fuel ← nat' (← j.getObjVal? "fuel")
+          let cj (c : Rec.Cache) : Json := Json.arr (c.map (fun p => Json.arr #[(p.1 : Nat), Json.bool p.2])).toArray
+          pure (Json.mkObj [("id", id), ("fixed", cj (Rec.history Rec.step g fuel starts)),
+                            ("early", cj (Rec.history Rec.stepEarly g fuel starts)),
+                            ("on_cycle", Json.arr (((g.map (·.1)).filter (Rec.onCycleB g)).map (fun (n : Nat) => (n : Json))).toArray)])
       | op => throw s!"unknown op {op}"
     match r with
     | .ok j => j.compress
